@@ -1295,10 +1295,19 @@ fn c07(tier: Tier, seed: u64) -> i32 {
 // TYPES
 
 pub fn types_pairs(prop: &str) -> Vec<crate::tyeng::Pair> {
+	types_pairs_for(prop, Tier::Quick)
+}
+
+/// quick: every subject with the blocking write API; thorough: x every acquiring API
+pub fn types_pairs_for(prop: &str, tier: Tier) -> Vec<crate::tyeng::Pair> {
+	let subjects = match tier {
+		Tier::Quick => crate::tyeng::Subj::all(),
+		Tier::Thorough => crate::tyeng::Subj::all_with_apis(),
+	};
 	match prop {
-		"C14" => crate::tyeng::families_c14(),
+		"C14" => crate::tyeng::families_c14(&subjects),
 		"C15" => {
-			let mut v = crate::tyeng::families_c15();
+			let mut v = crate::tyeng::families_c15(&subjects);
 			// "constructors that skip the duplicate check ... require unsafe or owned inputs"
 			v.extend(crate::tyeng::families_owned_lockable().into_iter().map(|mut p| {
 				p.prop = "C15".into();
@@ -1378,7 +1387,7 @@ pub fn types_campaign(ctx: &mut CheckCtx, prop: &str, tier: Tier, quick_n: u64) 
 			return false;
 		}
 	};
-	let pairs = types_pairs(prop);
+	let pairs = types_pairs_for(prop, tier);
 	let total = pairs.len();
 	// the product is small enough to be compiled completely in both tiers; the
 	// thorough tier adds the API-variant axis (see tyeng::variants)
@@ -1403,8 +1412,8 @@ fn types_check(prop: &'static str, tier: Tier, seed: u64) -> i32 {
 		"the rlib used is the one the check script just rebuilt from /repo's working tree".into(),
 	];
 	ctx.rule = match prop {
-		"C14" => "TYPES: client programs generated from a grammar (lock kind x Poisonable x collection kind x container x escape route K1..K11: key moved/lent to another thread, locking through &ThreadKey, clone/copy/use-after-move, key forgery (struct literal, Keyable impls, sealed path), guard APIs given &mut key, nested scoped calls on one key, key used inside its own closure, private key fields of guards, sending key-holding guards, moving holds out of a collection guard before unlock, key-less holds through unsafe trait methods from safe code). Every case is a pair: a twin that must compile and an offending program that differs only inside the marked region; verdict by rustc against the current tree: twin accepted, offending rejected with every primary error span inside the marked region. The whole product of the grammar is compiled in both tiers. Non-trivial = the twin compiled and the offending program got a verdict; distinct = (family, subject).".to_string(),
-		_ => "TYPES: client programs generated from a grammar (lock kind x Poisonable x collection kind x container x route D1..D8: reference outliving a guard, guard outliving its lock, reference escaping a scoped closure, shared access into an owned collection, unsafe-only entry points from safe code, &mut/by-value access while a guard lives, auto traits). D1-D7 are twin/offending pairs judged by rustc on the marked region. D8 is differential against std: for every position (Mutex, RwLock, Poisonable, every guard and ref type, every collection over owned and borrowed members, LockGuard, PoisonGuard, ...) x payload (i32, Cell, Rc, raw pointer, MutexGuard, Arc<Cell>) x {Send, Sync}, whenever the std counterpart is rejected the happylock type must be rejected too. The whole product of the grammar is compiled in both tiers. Non-trivial = the twin compiled and the offending program got a verdict (for D8: std rejected); distinct = (family, subject).".to_string(),
+		"C14" => "TYPES: client programs generated from a grammar (lock kind x Poisonable x collection kind x container x escape route K1..K11: key moved/lent to another thread, locking through &ThreadKey, clone/copy/use-after-move, key forgery (struct literal, Keyable impls, sealed path), guard APIs given &mut key, nested scoped calls on one key, key used inside its own closure, private key fields of guards, sending key-holding guards, moving holds out of a collection guard before unlock, key-less holds through unsafe trait methods from safe code). Every case is a pair: a twin that must compile and an offending program that differs only inside the marked region; verdict by rustc against the current tree: twin accepted, offending rejected with every primary error span inside the marked region. Quick: the whole product with the blocking write API; thorough: x every acquiring API (try_lock, read, try_read and their scoped forms). Non-trivial = the twin compiled and the offending program got a verdict; distinct = (family, subject).".to_string(),
+		_ => "TYPES: client programs generated from a grammar (lock kind x Poisonable x collection kind x container x route D1..D8: reference outliving a guard, guard outliving its lock, reference escaping a scoped closure, shared access into an owned collection, unsafe-only entry points from safe code, &mut/by-value access while a guard lives, auto traits). D1-D7 are twin/offending pairs judged by rustc on the marked region. D8 is differential against std: for every position (Mutex, RwLock, Poisonable, every guard and ref type, every collection over owned and borrowed members, LockGuard, PoisonGuard, ...) x payload (i32, Cell, Rc, raw pointer, MutexGuard, Arc<Cell>) x {Send, Sync}, whenever the std counterpart is rejected the happylock type must be rejected too. Quick: the whole product with the blocking write API; thorough: x every acquiring API (try_lock, read, try_read and their scoped forms). Non-trivial = the twin compiled and the offending program got a verdict (for D8: std rejected); distinct = (family, subject).".to_string(),
 	};
 	let quick_n = 320;
 	types_campaign(&mut ctx, prop, tier, quick_n);
